@@ -13,6 +13,10 @@ import (
 	"github.com/yandex/pandora/core/engine"
 	"github.com/yandex/pandora/core/schedule"
 
+	"go.uber.org/zap"
+	"go.uber.org/zap/zapcore"
+	"go.uber.org/zap/zaptest/observer"
+
 	"verif/harness/vkit"
 )
 
@@ -359,6 +363,58 @@ var seeds = []Case{
 	{Startup: vkit.SchedSpec{Kind: "composite", Parts: []vkit.SchedSpec{{Kind: "once", N: 2}, {Kind: "const", A: 0, DurMs: 100}, {Kind: "once", N: 3}}}, Scenario: "free"},
 }
 
+// sharedUnlimitedStart: the shortest runs — 16 instances released at once on one shared unlimited
+// profile of an hour, which is started by whichever first shot comes first, stopped after a few
+// milliseconds. In those milliseconds nothing has happened that may stop an instance or cut the
+// start short: the engine must not have cancelled the start of instances and none may have finished before the cancel.
+func sharedUnlimitedStart(res *vkit.Result, rounds int) {
+	c := map[string]any{"scenario": "shared unlimited(1h), startup once(16), cancelled after 3 ms", "rounds": rounds}
+	bad := ""
+	for r := 0; r < rounds && bad == ""; r++ {
+		prov := &vkit.MockProvider{Items: -1, FailAfter: -1}
+		plan := vkit.NewGunPlan()
+		shared := schedule.NewUnlimited(time.Hour)
+		m := vkit.NewMetrics()
+		obs, logs := observer.New(zapcore.InfoLevel)
+		eng := engine.New(zap.New(obs), m, engine.Config{Pools: []engine.InstancePoolConfig{{
+			ID: "p", Provider: prov, Aggregator: &vkit.MockAggregator{}, NewGun: plan.NewGun,
+			NewRPSSchedule:  func() (core.Schedule, error) { return shared, nil },
+			StartupSchedule: schedule.NewOnce(16),
+		}}})
+		ctx, cancel := context.WithCancel(context.Background())
+		done := make(chan error, 1)
+		go func() { done <- eng.Run(ctx) }()
+		time.Sleep(3 * time.Millisecond)
+		finishedBefore := m.InstanceFinish.Get()
+		startCut := logs.FilterMessageSnippet("Canceling instance start").Len()
+		ended := false
+		select {
+		case <-done:
+			ended = true
+		default:
+		}
+		cancel()
+		if !ended {
+			<-done
+		}
+		eng.Wait()
+		switch {
+		case ended:
+			bad = fmt.Sprintf("round %d: the run ended by itself within 3 ms", r)
+		case finishedBefore > 0:
+			bad = fmt.Sprintf("round %d: %d of the instances had already finished 3 ms after the start: the shared profile lasts an hour, ammo is endless, nothing was cancelled", r, finishedBefore)
+		case startCut > 0:
+			// decided on what the engine says it did, not on how many instances 3 ms were enough for
+			bad = fmt.Sprintf("round %d: the engine cancelled the start of instances (%d started of 16) 3 ms into the run: %q", r, m.InstanceStart.Get(), logs.FilterMessageSnippet("Canceling instance start").All()[0].Message)
+		}
+		res.Count("shared_unlimited_starts", 1)
+	}
+	if bad != "" {
+		res.Violate("C12/shared-unlimited-start/instance-stopped", bad, c)
+	}
+	res.Eval(vkit.JSON(c), true)
+}
+
 func main() {
 	res := vkit.NewResult("mock pools with startup profiles once/const/instance_step/composites (≤ ~1.5 s, 1–30 tokens) × scenario {free: per-instance profile outliving the startup profile, unbounded ammo; free-short: per-instance profiles ending long before the startup profile; shared-long; ammo exhausted early; shared profile ending before the startup profile; creation failure at instance k; cancel at a seeded instant}; distinct = distinct case descriptions; non-trivial = startup profile with ≥ 2 tokens")
 	rng := vkit.Rand("c12")
@@ -393,6 +449,7 @@ func main() {
 		}(c)
 	}
 	wg.Wait()
+	sharedUnlimitedStart(res, vkit.N(400, 6000))
 	vkit.CheckRaceLog(res, "C12")
 	if res.Counter("scenario_free") < 10 || res.Counter("cases_start_cut_short") == 0 {
 		res.Inconclusive(true, "too few free-running cases or no case where the start was cut short")
